@@ -103,7 +103,7 @@ func TestVerif_C19(t *testing.T) {
 	// every byte and the FIN. Deterministic (no goroutine races), so a case replays exactly;
 	// it reaches the sender-side corners the random network rarely hits (a FIN in a packet of
 	// its own, probes that truncate a frame, partial acknowledgements).
-	ns := r.N(1500, 60000)
+	ns := r.N(1500, 30000)
 	r.CasesParallel("scripted-receiver", ns, 0, func(c *verifrt.Case) {
 		rng := c.Rng
 		side := []connSide{clientSide, serverSide}[rng.IntN(2)]
